@@ -454,13 +454,18 @@ def tail_placement(run, m, F, E):
         return 0
     f = f[0]
     n = 0
-    for (g1, g2, expect) in TAIL_PATTERNS:
+    pats = list(TAIL_PATTERNS)
+    if run.tier == 'thorough':
+        # three groups: what the first group leaves behind must not show in the third either
+        pats += [('dddddddd', g2, None if e is None else e) for (g1, g2, e) in TAIL_PATTERNS if g1 == 'dddd'] + \
+                [('dddddd==', 'dddd', None), ('ddd=dddd', 'dddd', None)]
+    for (g1, g2, expect) in pats:
         n += 1
         pat = (g1 or '') + g2
         label = (g1 + ' ' if g1 else '') + g2
 
         class XH(DecHooks):
-            unroll = 4
+            unroll = 5
             widen_on_entry = False
         I = Interp(m, F, E, XH(m))
         st = State()
@@ -490,7 +495,7 @@ def tail_placement(run, m, F, E):
             run.ob('R15.5', short(f.dem, 60), None, 'not interpreted exactly: %s' % (str(e)[:70],), disc=label, loc=fn_loc(f))
             continue
         probs, und, nret = [], [], 0
-        want = None if expect is None else (3 * (1 if g1 else 0) + expect)
+        want = None if expect is None else (3 * (len(g1) // 4 if g1 else 0) + expect)
         for o in outs:
             s2 = o.st
             if o.kind == 'abort':
